@@ -93,17 +93,12 @@ def network_simplex(
     root = n
 
     # Spanning tree: parent[i] = parent node, pred[i] = arc to parent, depth[i] = tree depth
-    # thread/rev_thread = preorder traversal links for fast subtree iteration
     parent = [root] * total_nodes
     parent[root] = -1
     pred = list(range(m, m + n)) + [-1]
     depth = [1] * total_nodes
     depth[root] = 0
-    thread = list(range(1, total_nodes)) + [0]
-    thread[n - 1] = root
-    thread[root] = 0
-    rev_thread = [root] + list(range(total_nodes - 1))
-    rev_thread[root] = n - 1
+    tree_arcs = set(range(m, m + n))
 
     # pi[i] = node potential (dual variable); reduced cost = cost - pi[src] + pi[tgt]
     pi = [0.0] * total_nodes
@@ -115,14 +110,7 @@ def network_simplex(
             pi[i] = pi[root] - cost[arc]
 
     # state[arc]: 1 = at lower bound (can increase), -1 = at upper bound (can decrease), 0 = basic (in tree)
-    state = [0] * total_arcs
-    for arc in range(total_arcs):
-        if flow[arc] == 0:
-            state[arc] = 1
-        elif flow[arc] == cap[arc]:
-            state[arc] = -1
-        else:
-            state[arc] = 0
+    state = [1] * m + [0] * n
 
     iterations = 0
 
@@ -165,7 +153,6 @@ def network_simplex(
 
         # Ratio test: find leaving arc (bottleneck in cycle)
         leaving = entering
-        leaving_first = True
 
         node = first
         while node != join:
@@ -174,7 +161,6 @@ def network_simplex(
             if d < delta:
                 delta = d
                 leaving = arc
-                leaving_first = True
             node = parent[node]
 
         node = second
@@ -184,13 +170,7 @@ def network_simplex(
             if d < delta:
                 delta = d
                 leaving = arc
-                leaving_first = False
             node = parent[node]
-
-        # Degenerate pivot: flip state without changing flow
-        if delta == 0 and leaving == entering:
-            state[entering] = -state[entering]
-            continue
 
         # Augment flow along cycle
         if rc < 0:
@@ -216,78 +196,54 @@ def network_simplex(
                 flow[arc] -= delta
             node = parent[node]
 
-        for arc in range(total_arcs):
-            if flow[arc] == 0:
-                state[arc] = 1
-            elif flow[arc] == cap[arc]:
-                state[arc] = -1
-            else:
-                state[arc] = 0
+        if leaving == entering:
+            # The entering arc itself is the bottleneck: it moves to its other bound, the tree stays
+            state[entering] = -state[entering]
+            continue
 
-        if leaving != entering:
-            if leaving_first:
-                leaving_node = first
-                while pred[leaving_node] != leaving:
-                    leaving_node = parent[leaving_node]
-                new_parent = second
-            else:
-                leaving_node = second
-                while pred[leaving_node] != leaving:
-                    leaving_node = parent[leaving_node]
-                new_parent = first
-
-            prev_thread = rev_thread[leaving_node]
-            subtree_last = leaving_node
-            node = thread[leaving_node]
-            while depth[node] > depth[leaving_node]:
-                subtree_last = node
-                node = thread[node]
-
-            thread[prev_thread] = thread[subtree_last]
-            rev_thread[thread[subtree_last]] = prev_thread
-
-            attach_point = new_parent
-            node = thread[new_parent]
-            while node != new_parent and depth[node] > depth[new_parent]:
-                attach_point = node
-                node = thread[node]
-
-            thread[subtree_last] = thread[attach_point]
-            if thread[attach_point] < total_nodes:
-                rev_thread[thread[attach_point]] = subtree_last
-            thread[attach_point] = leaving_node
-            rev_thread[leaving_node] = attach_point
-
-            parent[leaving_node] = new_parent
-            pred[leaving_node] = entering
-
-            diff = depth[new_parent] + 1 - depth[leaving_node]
-            node = leaving_node
-            while True:
-                depth[node] += diff
-                node = thread[node]
-                if depth[node] <= depth[leaving_node] - diff or node == leaving_node:
-                    break
-
-            node = leaving_node
-            while True:
-                arc = pred[node]
-                if source[arc] == parent[node]:
-                    pi[node] = pi[parent[node]] - cost[arc]
-                else:
-                    pi[node] = pi[parent[node]] + cost[arc]
-                node = thread[node]
-                if depth[node] <= depth[new_parent] or node == leaving_node:
-                    break
+        # Basis change: the bottleneck arc leaves at the bound it reached, the entering arc joins the tree
+        state[entering] = 0
+        state[leaving] = 1 if flow[leaving] == 0 else -1
+        tree_arcs.remove(leaving)
+        tree_arcs.add(entering)
+        _rebuild_tree(root, tree_arcs, source, target, cost, parent, pred, depth, pi)
 
     for arc in range(m, total_arcs):
         if flow[arc] > 0:
             return Result(None, float("inf"), iterations, total_arcs, Status.INFEASIBLE)
 
     total_cost = sum(flow[i] * cost[i] for i in range(m))
-    flow_dict = {(source[i], target[i]): flow[i] for i in range(m) if flow[i] > 0}
+    flow_dict: dict[tuple[int, int], int] = {}
+    for i in range(m):
+        if flow[i] > 0:
+            key = (source[i], target[i])
+            flow_dict[key] = flow_dict.get(key, 0) + flow[i]  # parallel arcs are pooled
 
     return Result(flow_dict, total_cost, iterations, total_arcs)
+
+
+def _rebuild_tree(root, tree_arcs, source, target, cost, parent, pred, depth, pi):
+    """Recompute parent/pred/depth/pi by walking the spanning tree from the root."""
+    incident: dict[int, list[int]] = {}
+    for arc in tree_arcs:
+        incident.setdefault(source[arc], []).append(arc)
+        incident.setdefault(target[arc], []).append(arc)
+
+    seen = {root}
+    stack = [root]
+    while stack:
+        u = stack.pop()
+        for arc in incident.get(u, ()):
+            w = target[arc] if source[arc] == u else source[arc]
+            if w in seen:
+                continue
+            seen.add(w)
+            parent[w] = u
+            pred[w] = arc
+            depth[w] = depth[u] + 1
+            # Tree arcs have zero reduced cost
+            pi[w] = pi[u] + cost[arc] if source[arc] == w else pi[u] - cost[arc]
+            stack.append(w)
 
 
 def _find_join(u, v, depth, parent):
